@@ -308,6 +308,7 @@ func ruleC11(c *Ctx, r *Report) {
 
 	// ---- R5: failures stop the run; key block precedes processing
 	r.Floor("C11-R5", 3, "three key-related error tests in the command")
+	keyFunctionsErrorDiscipline(c, r, "C11-R5")
 	keyFns := map[string]bool{c.pkgFn("GenerateKey"): true, c.pkgFn("WriteKeyToFile"): true, c.pkgFn("ReadKeyFromFile"): true}
 	if gen != nil {
 		keyFns[fnFullName(gen)] = true
@@ -349,4 +350,48 @@ func (c *Ctx) processingCallKeys() map[string]bool {
 		}
 	}
 	return m
+}
+
+// keyFunctionsErrorDiscipline (C11-R5 / C10-R4): inside the key writer, the key reader and
+// the key generator every call that can fail has its error tested and the failing branch
+// returns a non-nil error - so "the key could not be stored / read / generated" always
+// reaches the command, which exits (C11-R5), and a run can never encrypt under a key
+// that did not reach the disk.
+func keyFunctionsErrorDiscipline(c *Ctx, r *Report, rule string) {
+	n := 0
+	for _, name := range []string{"WriteKeyToFile", "ReadKeyFromFile", "GenerateKey"} {
+		f := c.Fn(name)
+		if f == nil {
+			r.Undecided(rule, name+":error-discipline", "-", "key function not found")
+			continue
+		}
+		allInstrs(f, func(i ssa.Instruction) {
+			call, ok := i.(*ssa.Call)
+			if !ok || !hasErrorResult(call) {
+				return
+			}
+			k := calleeKey(&call.Call)
+			if strings.HasPrefix(k, "fmt.Errorf") || strings.HasPrefix(k, "errors.") || k == "os.Remove" || k == "os.RemoveAll" {
+				return // (removing a temporary file is best-effort cleanup, not part of storing / reading the key)
+			}
+			n++
+			okh, detail := checkCallErrHandled(call, true, nil)
+			r.Check(okh, rule, fmt.Sprintf("%s:err(%s)", f.Name(), shortKey(k)), c.InstrPos(call), detail,
+				"a failure of "+shortKey(k)+" inside "+f.Name()+" does not reach the caller as an error ("+detail+"): the run continues with a key that was not stored / read / generated")
+		})
+	}
+	if n < 3 {
+		r.Bad(rule, "key-functions:fallible-calls", "-", fmt.Sprintf("only %d fallible calls found in the key functions (4 confirmed by hand): anchor lost", n))
+	}
+}
+
+// hasErrorResult: the callee's signature has an error among its results.
+func hasErrorResult(call *ssa.Call) bool {
+	res := call.Call.Signature().Results()
+	for i := 0; i < res.Len(); i++ {
+		if isErrorType(res.At(i).Type()) {
+			return true
+		}
+	}
+	return false
 }
